@@ -135,6 +135,13 @@ def witness_cases():
     c4.update(origin=[0.5, 0.5, 0.0], direction={"kind": "letter", "s": "z"}, dx={"v": 1.0, "unit": "cm"}, dz={"v": 0.5, "unit": "cm"},
               res={"x": 2, "y": 2, "z": 4}, op="sum", tags=["witness", "2d", "letter", "boxcentre", "depth_on_2d_data", "sum", "dz/s=1", "given"])
     out.append(c4)
+    # dx omitted (the window comes from the data) and dz given in another unit than the positions: the depth window is
+    # [-dz/2, dz/2] in the positions' unit, whatever unit dz was given in
+    c5 = dict(c, dx=None, dz={"v": 0.005, "unit": "m"}, res={"x": 4, "y": 4, "z": 2}, op="mean", origin=[1.0, 1.0, 1.0],
+              tags=["witness", "3d", "letter", "boxcentre", "dx_omitted_dz_in_metres", "mean", "dz/s=1/2", "given"])
+    out.append(c5)
+    c6 = dict(c5, op="nansum", dz={"v": 10.0, "unit": "mm"}, tags=["witness", "3d", "letter", "boxcentre", "dx_omitted_dz_in_mm", "nansum", "dz/s=1", "given"])
+    out.append(c6)
     return out
 
 
